@@ -130,6 +130,31 @@ func Scenarios() []Scenario {
 		}, nil
 	}})
 
+	// S1c: a Write whose destination stalls until another user of the same profile
+	// is done (a slow client, a pipe whose reader first copies the profile): the
+	// other operation must not be blocked by the stalled write
+	out = append(out, Scenario{Name: "S1/write-to-stalled-sink", MaxPreempt: 1, Setup: func() ([]func() string, func() string) {
+		p := tinyProfile()
+		otherDone := false
+		return []func() string{
+			func() string {
+				w := &stallingWriter{until: func() bool { return otherDone }}
+				if err := p.Write(w); err != nil {
+					return "err " + err.Error()
+				}
+				q, err := profile.ParseData(w.buf.Bytes())
+				if err != nil {
+					return "err " + err.Error()
+				}
+				return q.String()
+			},
+			func() string {
+				defer func() { otherDone = true }()
+				return p.Copy().String()
+			},
+		}, nil
+	}})
+
 	// S4: three concurrent newTempFile with one prefix
 	out = append(out, Scenario{Name: "S4/tempfiles", Setup: func() ([]func() string, func() string) {
 		dir := filepath.Join(drive.Sandbox(), "tmp", "s4")
@@ -396,4 +421,19 @@ func trim(ch []int) []int {
 		n--
 	}
 	return ch[:n]
+}
+
+// stallingWriter blocks its first Write until the predicate holds.
+type stallingWriter struct {
+	buf     bytes.Buffer
+	until   func() bool
+	stalled bool
+}
+
+func (w *stallingWriter) Write(b []byte) (int, error) {
+	if !w.stalled {
+		w.stalled = true
+		verifrt.SchedPoint(w.until, "stalled sink")
+	}
+	return w.buf.Write(b)
 }
